@@ -133,7 +133,13 @@ CLAIMED = {
             "reproduces the input, text output is positional notation with '-' for negatives and size_str = length + 1. Field and point "
             "decoders (fp_read_bin, ep_read_bin incl. compressed form, ep_write_bin, ep_size_bin) are compared with a Lean specification of "
             "the decision logic (lengths, tags, coordinates < p, curve equation, sign-bit convention) on valid and malformed streams for six "
-            "curves; their theorems (Model/EpConv.lean) are in progress. fpN/ep2/eb/ed/gt encodings are not covered yet.",
+            "curves, with theorems in Model/EpConv.lean + Lemmas/EpConv.lean (decode accepts only curve points, re-encoding reproduces the input "
+            "off the 2-torsion, decode∘encode = id, injectivity). Twist points over Fp2 (ep2_write_bin / ep2_read_bin / ep2_pck / ep2_upk): "
+            "Model/Ep2Conv.lean with theorems (decode => on curve; uncompressed decode∘encode = id; the compression bit separates y from -y; "
+            "machine-checked counterexample for the sign rule of the pinned ep2_pck, a genuine defect repaired in /repo) and a stream of "
+            "valid and damaged encodings on both pairing curves incl. twist points with y in Fp; the compressed ep2 round trip is decided per "
+            "presented line, not proved. Every point decode is run into three different destination contents and must not depend on them. "
+            "eb/ed encodings are covered in C16/C17, compression of cyclotomic fpN elements in C10; other fpN/gt encodings are not covered.",
             "Trusted: Lean kernel; hand-written models tied by correspondence; util_conv_char's alphabet is part of the model; malformed "
             "numerals are read up to the first bad character (model-vs-implementation only); the compressed-point sign bit is the low bit "
             "of the stored Montgomery form on non-pairing curves (the library's own convention, not SEC1).",
@@ -166,7 +172,9 @@ CLAIMED = {
             "Proved in Lean for the model: for every hash with 32-byte output, every non-empty seed and every history of generate/reseed "
             "calls shorter than 2^31-258 operations, the model's byte stream equals the SP 800-90A Hash_DRBG stream; over-limit requests and "
             "empty seeds are refused with the state unchanged. The model is tied to src/rand/relic_rand_hashd.c by running both on the same "
-            "histories (boundary request sizes, reseeds, 40k-call histories) and diffing byte-for-byte.",
+            "histories (boundary request sizes, reseeds, 40k-call histories) and diffing byte-for-byte. bn_rand and bn_rand_mod are executable "
+            "models over the DRBG model (digit filling, top-digit mask, the rejection loop) compared on bit lengths around the digit size and "
+            "bounds from 2 to the capacity; their specification column is 'at most the requested bits' / 'in [1, bound) in normal form'.",
             "Trusted: Lean kernel (axioms propext, Classical.choice, Quot.sound); hand-written model tied by correspondence only; SHA-256 as "
             "executable FIPS 180-4 spec (validated against md_map_sh256 in the same run); ctx->counter is an int (history bound).",
             "DESIGN.md §5 C15"),
@@ -321,8 +329,12 @@ CLAIMED = {
             "correspondence. OBSERVED, not proved: absence of out-of-bounds access, undefined shifts, use of freed/uninitialised storage in "
             "the C code, decided per presented line (~31000 lines per quick run on the 64-bit and 8-bit-digit builds) by ASan+UBSan builds "
             "rebuilt from the working tree, guard words around every caller buffer and comparison of the sanitizer build's output with the "
-            "optimised build's. PARTIAL: allocation-failure points of ALLOC=DYNAMIC builds are not enumerated; protocol-level buffers (cp_rsa) "
-            "belong to the C05/C06 streams.",
+            "optimised build's. 'An unsupported parameter is reported': selection by identifier is modelled against the parameter table the "
+            "translator extracts on every run (Model/ParamSel.lean, 3 theorems) and fp_param_set/ep_param_set are called with every "
+            "identifier value. Allocation failure: in an ALLOC=DYNAMIC sanitizer build with link-time wrapped allocators every allocation "
+            "of ~85 library calls (bn, ep, md, rand, cp_rsa/ecdsa/ecdh/ecss/ecies) is made to fail once: each failure must be reported or "
+            "harmless, no sanitizer report, and the call must work again afterwards (observed, not proved); the same defect class in the "
+            "other modules is known finding C08-AF1. Protocol-level buffers (cp_rsa) belong to the C05/C06 streams.",
             "Trusted: Lean kernel; sanitizer runtime and compiler; harness guard words for buffers that live inside static arrays; the "
             "quantifier 'every argument combination' is covered by structured streams (all operand lengths up to capacity+1, buffer lengths "
             "needed-3..needed+2), not by a theorem about the C code.",
